@@ -47,6 +47,9 @@ func genRoundTripFile(rng *lib.Rand, idx uint64, noSources bool) (*fit.File, byt
 	if idx%97 == 0 {
 		o.MaxPerSlot = 40 + rng.Intn(300) // long slices: one definition serving hundreds of records, files of 10-300 KB
 	}
+	if idx%389 == 0 {
+		o.Phased = true // slices of 600-1100 messages whose set fields change from phase to phase
+	}
 	return lib.GenFile(rng, o), ft, arch
 }
 
